@@ -22,7 +22,9 @@ package output
 //@ func (*groupWriter).close
 //@   modifies bytes.*
 //@   init nw := 0
-//@   site io.WriteString#1 ghost nw := nw + (arg1 != "" ? 1 : 0)
+//@   nosite io.WriteString                                   -- nothing but the single Copy below reaches the stream   [C17]
+//@   nosite (Writer).Write                                                                                             [C17]
+//@   site io.Copy#1 requires arg0 == gw.writer                                                                         [C17]
 //@   site io.Copy#1 ghost nw := nw + 1
 //@   ensures nw <= 1                                         -- begin line, bytes and end line go out in ONE write     [C17]
 
